@@ -97,6 +97,26 @@ def h_clamp(ctx):
     ctx.observe("r", r)
 
 
+def h_max_estimate(ctx, has_avg, bits):
+    """_update_max_throughput_estimate (float EWMA of the max throughput) never raises - in
+    particular no ZeroDivisionError at zero throughput - and keeps var within [0.4, 2.5].  Floats are
+    modelled as the exact rationals avg = A/1000, var = V/1000, throughput = T/1000 (A, V, T
+    symbolic integers); what IEEE rounding could change is not modelled (approximate reals)."""
+    a = AimdRateControl()
+    M = (1 << bits) - 1
+    if has_avg:
+        a.avg_max_bitrate_kbps = ctx.int("avg_milli_kbps", 0, M) / 1000
+    else:
+        a.avg_max_bitrate_kbps = None
+    a.var_max_bitrate_kbps = ctx.int("var_milli", 400, 2500) / 1000
+    kbps = ctx.int("T", 0, M) / 1000
+    a._update_max_throughput_estimate(kbps)
+    ctx.reach("max-estimate-updated")
+    ctx.check(sx.And(a.var_max_bitrate_kbps >= 0.4, a.var_max_bitrate_kbps <= 2.5), "variance-stays-clamped")
+    ctx.check(a.avg_max_bitrate_kbps >= 0, "average-non-negative")
+    ctx.observe("ok", True)
+
+
 def h_aimd_update(ctx, steps, avg, bits=32):
     """AimdRateControl.update from an arbitrary controller state, `steps` calls in a row: never
     raises; an estimate that rises stays <= 1.5 x latest measurement + 10000; on over-use the
@@ -301,6 +321,7 @@ STUBS = [
 HARNESSES = {
     "ratecounter": Harness("ratecounter", h_ratecounter, _rc_jobs, style="BMC", bounds="window W = 2 (every add/rate sequence of length 4 with <=2 queries) and W = 3 (two sequences) in the quick tier / W in {2,3,4,5,8} ms, every add/rate sequence of length 4 (5), non-decreasing symbolic times with gaps 0..2W, sizes 0..1500", encoded=ENC, stubs=STUBS, outside=["W = 1000 as deployed (the code is parametric in the window size)"], twin="rate-queried", opts={"samples": 1}),
     "aimd-near-max": Harness("aimd-near-max", h_near_max, lambda tier: [{}], style="STEP", bounds="current_bitrate 0..2^32-1, rtt 0..10000 ms, elapsed 0..2^20 ms", encoded=ENC, stubs=STUBS, twin="near-max-computed"),
+    "aimd-max-estimate": Harness("aimd-max-estimate", h_max_estimate, lambda tier: ([{"has_avg": False, "bits": 24}, {"has_avg": True, "bits": 12}] if tier == "quick" else [{"has_avg": False, "bits": 32}, {"has_avg": True, "bits": 16}]), style="STEP", bounds="avg = A/1000 or None, var = V/1000 with V in 400..2500, throughput = T/1000 kbit/s; without a previous average T in 0..2^24-1 (quick) / 2^32-1, with one A, T in 0..2^12-1 (quick) / 2^16-1 (the products are non-linear; 24 bits left one query undecided)", encoded=ENC + ["aiortc.rate:AimdRateControl._update_max_throughput_estimate"], stubs=["floats as exact rationals of symbolic integers (approximate reals): control flow and division-by-zero are decided on the exact values, IEEE rounding is not modelled"], twin="max-estimate-updated"),
     "aimd-clamp": Harness("aimd-clamp", h_clamp, lambda tier: [{}], style="STEP", bounds="current 0..2^32-1, new 0..2^40, throughput 0..2^32-1", encoded=ENC, stubs=STUBS, twin="clamped"),
     "aimd-update": Harness("aimd-update", h_aimd_update, lambda tier: [{"steps": s, "avg": v} for s in ((1, 2) if tier == "quick" else (1, 2, 3)) for v in (None, 1000.0)], style="BMC from an arbitrary controller state", bounds="1..2 (quick) / 1..3 consecutive update() calls from an arbitrary controller state: current_bitrate/latest measurement 0..2^32-1, any state/near_max/initialised flags, measurement present or None, gaps 0..5000 ms; avg_max_bitrate_kbps None or 1000.0 (var 0.4)", encoded=ENC + ["aiortc.rate:AimdRateControl.update"], stubs=STUBS + ["AimdRateControl._multiplicative_rate_increase (pow) -> arbitrary int in 1000..2^32-1; _additive_rate_increase -> arbitrary int in 0..2^40 (its contract, result >= 0 and no exception, is the aimd-near-max harness); _update_max_throughput_estimate (float EWMA) -> sets avg to 1000.0; round(0.85*T): any integer within 1/2 + half-ulp of the exact rational product (over-approximates IEEE rounding)"], outside=["float state avg/var_max_bitrate_kbps other than None/1000.0 (sqrt of symbolic floats)"], twin="updated", opts={"lia": True}),
     "orchestration": Harness("orchestration", h_orchestration, lambda tier: [{"npk": n, "W": 2} for n in ((2,) if tier == "quick" else (2, 3))], style="BMC", bounds="2 (quick) / 2..3 packets with symbolic SSRCs (overlaps solver-decided), arrival gaps 0..2W ms, sizes 0..1500, measurement window W = 2 ms (RateCounter is parametric in W)", encoded=ENC, stubs=STUBS, twin="added", opts={"samples": 1}),
